@@ -1,7 +1,7 @@
 #!/bin/bash
 # run quick checks of the given properties under several seeds; report any non-zero exit
 cd "$(dirname "$0")/.."
-props="${PROPS:-C02 C03 C14 C16 C17}"
+props="${PROPS:-C01 C02 C03 C06 C09 C11 C12 C14 C16 C17}"
 seeds="${SEEDS:-1 2 3 4 5 6 7 8}"
 export VERIF_REPLAY_DIR="${VERIF_REPLAY_DIR:-$PWD/sweep-replays}"
 fail=0
